@@ -722,15 +722,27 @@ func (f *File) Truncate(size int64) error {
 		return err
 	}
 
+	if size < 0 {
+		return os.ErrInvalid
+	}
+
 	if size > oldSize {
-		if err := f.writeBuf.Truncate(0); err != nil {
+		// Keep the existing content and the position, append zeros
+		pos, err := f.writeBuf.Seek(0, io.SeekCurrent)
+		if err != nil {
 			return err
 		}
 
-		for i := int64(0); i < size; i++ {
-			if _, err := f.writeBuf.Write(make([]byte, 1)); err != nil {
-				return err
-			}
+		if _, err := f.writeBuf.Seek(0, io.SeekEnd); err != nil {
+			return err
+		}
+
+		if _, err := f.writeBuf.Write(make([]byte, size-oldSize)); err != nil {
+			return err
+		}
+
+		if _, err := f.writeBuf.Seek(pos, io.SeekStart); err != nil {
+			return err
 		}
 
 		return nil
